@@ -605,9 +605,10 @@ class LinComb:
         if bits is None:
             bits = bitlength
 
-        if is_guard() and self.value.bit_length() <= bits:
+        # negative values are represented by -value-1, so the range is [-1<<bits, 1<<bits)
+        abs = self.value if self.value >= 0 else -self.value - 1
+        if is_guard() and abs.bit_length() <= bits:
             ret = PrivValBool(1 if self.value >= 0 else 0)
-            abs = self.value if self.value >= 0 else -self.value - 1
 
             bits = [PrivValBool((abs & (1 << ix)) >> ix) for ix in range(bits)]
         elif ignore_errors():
